@@ -1,12 +1,13 @@
 (** C12 - the std-feature log2 estimator: PROOFS.
     With the libm assumption made explicit (Section hypotheses [flog2_format], [flog2_one_ulp]),
     every std [log2_bounds] of primitives, big integers and rationals encloses the true binary
-    logarithm for every input; for floats [Repr<B>] the scheme is NOT sound (refuted, with the
-    witness found in the real library) and the sound part is proved.
-    Print Assumptions: only the axioms of the standard real-number library. *)
+    logarithm for every input; for floats [Repr<B>] the part that does not depend on the rounding of
+    e * log2(B) is proved here (std_log2_repr_encloses_partial; the float composition on IEEE operations is
+    C14's Cross/XLog2Flocq.v, after the repair 388fab5 of float/src/log.rs).
+    Print Assumptions: only the axioms of the standard real-number library (no interval tactic: ln 2 >= 1/2
+    is proved from exp 1 <= 3). *)
 From Coq Require Import ZArith Reals Lra Lia Psatz.
 From Flocq Require Import Core Relative.
-From Interval Require Import Tactic.
 From Dashu Require Import Base.Prelude Int.GrlSpec Int.GrlLog2Real Int.GrlLog2Std.
 Open Scope R_scope.
 
@@ -265,6 +266,17 @@ Proof.
   apply format32_F2R; simpl; lia.
 Qed.
 
+(** ln 2 >= 1/2, elementary (exp 1 <= 3), so that no interval arithmetic - and none of the primitive-integer /
+    primitive-float axioms its tactic brings in - is needed *)
+Lemma ln2_ge_half : / 2 <= ln 2.
+Proof.
+  rewrite <- (ln_exp (/ 2)). left. apply ln_increasing; [apply exp_pos | ].
+  assert (exp (/ 2) * exp (/ 2) = exp 1) as H by (rewrite <- exp_plus; f_equal; lra).
+  pose proof exp_le_3 as E3. pose proof (exp_pos (/ 2)) as P.
+  destruct (Rlt_or_le (exp (/ 2)) 2) as [ | C]; [assumption | exfalso].
+  assert (2 * 2 <= exp (/ 2) * exp (/ 2)) by (apply Rmult_le_compat; lra). lra.
+Qed.
+
 (** log2 (x + 1) - log2 x <= 2 / x *)
 Lemma log2R_succ : forall x, 0 < x -> log2R (x + 1) <= log2R x + 2 / x.
 Proof.
@@ -273,7 +285,7 @@ Proof.
   rewrite log2R_mult by lra. apply Rplus_le_compat_l. unfold log2R.
   assert (ln (1 + / x) <= / x) as H1.
   { left. rewrite <- (ln_exp (/ x)) at 2. apply ln_increasing; [lra|]. apply exp_ineq1. lra. }
-  assert (/ 2 <= ln 2) as H2 by interval.
+  pose proof ln2_ge_half as H2.
   assert (0 <= ln (1 + / x)) as H0.
   { rewrite <- ln_1. destruct (Req_dec (/ x) 0) as [E|N]; [lra|]. left. apply ln_increasing; lra. }
   unfold Rdiv. apply Rle_trans with (/ x * / ln 2).
@@ -544,3 +556,21 @@ Section StdProofs.
       + eapply Rle_trans; [|apply next_up_rnd_ge]. nra.
   Qed.
 End StdProofs.
+
+(** the libm contract is satisfiable (non-vacuity of the section hypotheses): the correctly rounded logarithm
+    fulfils it, so every theorem of the section applies at least to a correctly rounding libm *)
+Lemma libm_contract_inhabited :
+  let f := fun x => rnd32 (log2R x) in
+  (forall x, 0 < x -> format32 x -> format32 (f x)) /\
+  (forall x, 0 < x -> format32 x -> next_down (f x) <= log2R x <= next_up (f x)).
+Proof.
+  cbv zeta. split.
+  - intros x _ _. apply format32_rnd.
+  - intros x _ _. split; [apply next_down_rnd_le | apply next_up_rnd_ge].
+Qed.
+
+Example std_log2_uint_example : forall n : Z, (0 < n < 2 ^ 128)%Z ->
+  encloses (std_log2_uint (fun x => rnd32 (log2R x)) n) (IZR n).
+Proof.
+  intros n Hn. destruct libm_contract_inhabited as [H1 H2]. exact (std_log2_uint_encloses _ H1 H2 n Hn).
+Qed.
